@@ -38,6 +38,7 @@ type Contract struct {
 	Frames          map[string][]string
 	Modifies        []string
 	Inline          bool
+	ReplayFor       [][3]string
 	Assumed         bool
 	Pure            bool        // modifies nothing (checked)
 	Trusted         bool        // contract assumed, body not verified (externals)
@@ -281,6 +282,13 @@ func parseContracts(path string) ([]*Contract, []*SpecDef, error) {
 				cur.LockInvs = map[string][]*Clause{}
 			}
 			cur.LockInvs[mf] = append(cur.LockInvs[mf], last)
+		case "replayfor":
+			// replayfor <obligation substring> <driver> [name:=literal ...]: the driver for obligations whose name
+			// contains the substring (the plain "replay" line is the default driver of the function)
+			sub, r2 := splitWord(rest)
+			drv, consts := splitWord(r2)
+			cur.ReplayFor = append(cur.ReplayFor, [3]string{sub, drv, consts})
+			last = nil
 		case "replay":
 			k, v := splitWord(rest)
 			cur.Flags["replay"] = k
@@ -478,6 +486,9 @@ func parseContracts(path string) ([]*Contract, []*SpecDef, error) {
 		}
 		if len(c.Props) == 0 {
 			c.Props = src.Props
+		}
+		if len(c.ReplayFor) == 0 {
+			c.ReplayFor = append(c.ReplayFor, src.ReplayFor...)
 		}
 		for k, v := range src.Flags {
 			if _, ok := c.Flags[k]; !ok {
